@@ -255,4 +255,151 @@ theorem capsule_range (pos : V3) (m : M9) (size pnt vec : V3) :
   · exact Or.inl h1
   · exact Or.inr h1.1
 
+/-! ### box -/
+
+/-- boundary of the box `|l_i| ≤ size_i` in the geom frame: on a face plane of one axis, within the rectangle of the other two -/
+def OnBox (size l : V3) : Prop :=
+  ((l.1 = size.1 ∨ l.1 = -size.1) ∧ |l.2.1| ≤ size.2.1 ∧ |l.2.2| ≤ size.2.2) ∨
+  ((l.2.1 = size.2.1 ∨ l.2.1 = -size.2.1) ∧ |l.1| ≤ size.1 ∧ |l.2.2| ≤ size.2.2) ∨
+  ((l.2.2 = size.2.2 ∨ l.2.2 = -size.2.2) ∧ |l.1| ≤ size.1 ∧ |l.2.1| ≤ size.2.1)
+
+theorem box_sound_scalar (p0 p1 p2 m0 m1 m2 m3 m4 m5 m6 m7 m8 s0 s1 s2 q0 q1 q2 v0 v1 v2 : ℝ) :
+    let K := mju_rayGeom_box p0 p1 p2 m0 m1 m2 m3 m4 m5 m6 m7 m8 s0 s1 s2 q0 q1 q2 v0 v1 v2
+    K = -1 ∨ (0 ≤ K ∧ OnBox (s0, s1, s2) (pointAt (toLocal (p0, p1, p2) (m0, m1, m2, m3, m4, m5, m6, m7, m8) (q0, q1, q2))
+      (rotT (m0, m1, m2, m3, m4, m5, m6, m7, m8) (v0, v1, v2)) K)) := by
+  intro K
+  have hmap := rayMap_eq (p0, p1, p2) (m0, m1, m2, m3, m4, m5, m6, m7, m8) (q0, q1, q2) (v0, v1, v2)
+  generalize toLocal (p0, p1, p2) (m0, m1, m2, m3, m4, m5, m6, m7, m8) (q0, q1, q2) = lp at hmap ⊢
+  generalize rotT (m0, m1, m2, m3, m4, m5, m6, m7, m8) (v0, v1, v2) = lv at hmap ⊢
+  obtain ⟨l0, l1, l2⟩ := lp; obtain ⟨w0, w1, w2⟩ := lv
+  simp only [rayMap, Prod.mk.injEq] at hmap
+  obtain ⟨⟨h0, h1, h2⟩, h3, h4, h5⟩ := hmap
+  revert K
+  unfold mju_rayGeom_box
+  extract_lets -merge ssz_0 dif_0_0 dif_1_0 dif_2_0 a_0 b_0 c_0 r_ray_quad_0 ray_quad_ret_0 xx_0_0 xx_1_0 c_1 ret_0 r_ray_map_0 lpnt_0_0 lpnt_1_0 lpnt_2_0 lvec_0_0 lvec_1_0 lvec_2_0 x_0 c_2 sol_0 c_3 p0_0 p1_0 c_4 c_5 x_1 face_axis_0 x_2 face_axis_1 x_3 face_axis_2 sol_1 c_6 p0_1 p1_1 c_7 c_8 x_4 face_axis_3 x_5 face_axis_4 x_6 face_axis_5 x_7 face_axis_6 c_9 sol_2 c_10 p0_2 p1_2 c_11 c_12 x_8 face_axis_7 x_9 face_axis_8 x_10 face_axis_9 sol_3 c_13 p0_3 p1_3 c_14 c_15 x_11 face_axis_10 x_12 face_axis_11 x_13 face_axis_12 x_14 face_axis_13 c_16 sol_4 c_17 p0_4 p1_4 c_18 c_19 x_15 face_axis_14 x_16 face_axis_15 x_17 face_axis_16 sol_5 c_20 p0_5 p1_5 c_21 c_22 x_18 face_axis_17 x_19 face_axis_18 x_20 face_axis_19 x_21 face_axis_20 ret_1 K
+  let P : ℝ → Prop := fun x => x = -1 ∨ (0 ≤ x ∧ OnBox (s0, s1, s2) (pointAt (l0, l1, l2) (w0, w1, w2) x))
+  show P K
+  have hl0 : lpnt_0_0 = l0 := h0
+  have hl1 : lpnt_1_0 = l1 := h1
+  have hl2 : lpnt_2_0 = l2 := h2
+  have hw0 : lvec_0_0 = w0 := h3
+  have hw1 : lvec_1_0 = w1 := h4
+  have hw2 : lvec_2_0 = w2 := h5
+  have hx_0 : P x_0 := by left; simp [x_0]
+  have hg0 : c_2 = true → w0 ≠ 0 := by
+    intro h
+    simp only [c_2, decide_eq_true_eq, real_lt_iff, ofSci_eps, real_abs, hw0] at h
+    intro hz; rw [hz] at h; simp at h; linarith [eps_pos]
+  have hx_3 : c_2 = true → P x_3 := by
+    intro hc
+    have hw := hg0 hc
+    simp only [x_3, x_2, x_1]
+    apply ite3 hx_0
+    intro h3 h4
+    right
+    simp only [c_3, decide_eq_true_eq, real_le_iff, real_ofInt] at h3
+    simp only [c_4, decide_eq_true_eq, real_le_iff, real_abs, p0_0, p1_0, hl0, hl1, hl2, hw0, hw1, hw2] at h4
+    refine ⟨by exact_mod_cast h3, Or.inl ⟨Or.inr ?_, by simpa only [pointAt] using h4.1, by simpa only [pointAt] using h4.2⟩⟩
+    simp only [pointAt, sol_0, hl0, hw0, real_ofInt]; push_cast; field_simp; ring
+  have hx_6 : c_2 = true → P x_6 := by
+    intro hc
+    have hw := hg0 hc
+    simp only [x_6, x_5, x_4]
+    apply ite3 (hx_3 hc)
+    intro h3 h4
+    right
+    simp only [c_6, decide_eq_true_eq, real_le_iff, real_ofInt] at h3
+    simp only [c_7, decide_eq_true_eq, real_le_iff, real_abs, p0_1, p1_1, hl0, hl1, hl2, hw0, hw1, hw2] at h4
+    refine ⟨by exact_mod_cast h3, Or.inl ⟨Or.inl ?_, by simpa only [pointAt] using h4.1, by simpa only [pointAt] using h4.2⟩⟩
+    simp only [pointAt, sol_1, hl0, hw0, real_ofInt]; push_cast; field_simp; ring
+  have hx_7 : P x_7 := by
+    simp only [x_7]
+    exact ite1 hx_6 hx_0
+  have hg1 : c_9 = true → w1 ≠ 0 := by
+    intro h
+    simp only [c_9, decide_eq_true_eq, real_lt_iff, ofSci_eps, real_abs, hw1] at h
+    intro hz; rw [hz] at h; simp at h; linarith [eps_pos]
+  have hx_10 : c_9 = true → P x_10 := by
+    intro hc
+    have hw := hg1 hc
+    simp only [x_10, x_9, x_8]
+    apply ite3 hx_7
+    intro h3 h4
+    right
+    simp only [c_10, decide_eq_true_eq, real_le_iff, real_ofInt] at h3
+    simp only [c_11, decide_eq_true_eq, real_le_iff, real_abs, p0_2, p1_2, hl0, hl1, hl2, hw0, hw1, hw2] at h4
+    refine ⟨by exact_mod_cast h3, (Or.inr ∘ Or.inl) ⟨Or.inr ?_, by simpa only [pointAt] using h4.1, by simpa only [pointAt] using h4.2⟩⟩
+    simp only [pointAt, sol_2, hl1, hw1, real_ofInt]; push_cast; field_simp; ring
+  have hx_13 : c_9 = true → P x_13 := by
+    intro hc
+    have hw := hg1 hc
+    simp only [x_13, x_12, x_11]
+    apply ite3 (hx_10 hc)
+    intro h3 h4
+    right
+    simp only [c_13, decide_eq_true_eq, real_le_iff, real_ofInt] at h3
+    simp only [c_14, decide_eq_true_eq, real_le_iff, real_abs, p0_3, p1_3, hl0, hl1, hl2, hw0, hw1, hw2] at h4
+    refine ⟨by exact_mod_cast h3, (Or.inr ∘ Or.inl) ⟨Or.inl ?_, by simpa only [pointAt] using h4.1, by simpa only [pointAt] using h4.2⟩⟩
+    simp only [pointAt, sol_3, hl1, hw1, real_ofInt]; push_cast; field_simp; ring
+  have hx_14 : P x_14 := by
+    simp only [x_14]
+    exact ite1 hx_13 hx_7
+  have hg2 : c_16 = true → w2 ≠ 0 := by
+    intro h
+    simp only [c_16, decide_eq_true_eq, real_lt_iff, ofSci_eps, real_abs, hw2] at h
+    intro hz; rw [hz] at h; simp at h; linarith [eps_pos]
+  have hx_17 : c_16 = true → P x_17 := by
+    intro hc
+    have hw := hg2 hc
+    simp only [x_17, x_16, x_15]
+    apply ite3 hx_14
+    intro h3 h4
+    right
+    simp only [c_17, decide_eq_true_eq, real_le_iff, real_ofInt] at h3
+    simp only [c_18, decide_eq_true_eq, real_le_iff, real_abs, p0_4, p1_4, hl0, hl1, hl2, hw0, hw1, hw2] at h4
+    refine ⟨by exact_mod_cast h3, (Or.inr ∘ Or.inr) ⟨Or.inr ?_, by simpa only [pointAt] using h4.1, by simpa only [pointAt] using h4.2⟩⟩
+    simp only [pointAt, sol_4, hl2, hw2, real_ofInt]; push_cast; field_simp; ring
+  have hx_20 : c_16 = true → P x_20 := by
+    intro hc
+    have hw := hg2 hc
+    simp only [x_20, x_19, x_18]
+    apply ite3 (hx_17 hc)
+    intro h3 h4
+    right
+    simp only [c_20, decide_eq_true_eq, real_le_iff, real_ofInt] at h3
+    simp only [c_21, decide_eq_true_eq, real_le_iff, real_abs, p0_5, p1_5, hl0, hl1, hl2, hw0, hw1, hw2] at h4
+    refine ⟨by exact_mod_cast h3, (Or.inr ∘ Or.inr) ⟨Or.inl ?_, by simpa only [pointAt] using h4.1, by simpa only [pointAt] using h4.2⟩⟩
+    simp only [pointAt, sol_5, hl2, hw2, real_ofInt]; push_cast; field_simp; ring
+  have hx_21 : P x_21 := by
+    simp only [x_21]
+    exact ite1 hx_20 hx_14
+  show P ret_1
+  simp only [ret_1]
+  exact ite1 (fun _ => Or.inl (by simp [ret_0])) hx_21
+
+/-- `mju_rayGeom(…, mjGEOM_BOX, NULL)` -/
+noncomputable def rayBox (pos : V3) (m : M9) (size : V3) (pnt vec : V3) : ℝ :=
+  mju_rayGeom_box (α := ℝ) pos.1 pos.2.1 pos.2.2 m.1 m.2.1 m.2.2.1 m.2.2.2.1 m.2.2.2.2.1 m.2.2.2.2.2.1
+    m.2.2.2.2.2.2.1 m.2.2.2.2.2.2.2.1 m.2.2.2.2.2.2.2.2 size.1 size.2.1 size.2.2 pnt.1 pnt.2.1 pnt.2.2 vec.1 vec.2.1 vec.2.2
+
+theorem box_inv (pos : V3) (m : M9) (size pnt vec : V3) :
+    rayBox pos m size pnt vec = -1 ∨ (0 ≤ rayBox pos m size pnt vec ∧
+      OnBox size (toLocal pos m (pointAt pnt vec (rayBox pos m size pnt vec)))) := by
+  obtain ⟨p0, p1, p2⟩ := pos; obtain ⟨m0, m1, m2, m3, m4, m5, m6, m7, m8⟩ := m
+  obtain ⟨s0, s1, s2⟩ := size; obtain ⟨q0, q1, q2⟩ := pnt; obtain ⟨v0, v1, v2⟩ := vec
+  rw [toLocal_pointAt]
+  exact box_sound_scalar p0 p1 p2 m0 m1 m2 m3 m4 m5 m6 m7 m8 s0 s1 s2 q0 q1 q2 v0 v1 v2
+
+theorem box_hit_on_surface (pos : V3) (m : M9) (size pnt vec : V3) (h : 0 ≤ rayBox pos m size pnt vec) :
+    OnBox size (toLocal pos m (pointAt pnt vec (rayBox pos m size pnt vec))) := by
+  rcases box_inv pos m size pnt vec with h1 | h1
+  · rw [h1] at h; norm_num at h
+  · exact h1.2
+
+theorem box_range (pos : V3) (m : M9) (size pnt vec : V3) :
+    rayBox pos m size pnt vec = -1 ∨ 0 ≤ rayBox pos m size pnt vec := by
+  rcases box_inv pos m size pnt vec with h1 | h1
+  · exact Or.inl h1
+  · exact Or.inr h1.1
+
 end MjProof.RayLemmas
